@@ -20,6 +20,7 @@ RULE = ("C03 systems (residues of 1-6 atoms) whose residues get user templates f
         "neighbour; distinct = spec hash")
 ASSUMPTIONS = ["templates are read from MetaMolecule.templates under the residue's template key (captured)",
                "tolerances: 1e-6 nm on the fit residual, 1e-8 on the centre"]
+RULE += (' Backmapping factors 1.5 and 2.5, atom names differing in case only (a1 / A1) and templates spread over several build files are generated as well.')
 BUDGET = {"quick": (16, 40), "thorough": (16, 1500)}
 
 
